@@ -885,6 +885,32 @@ func main() {
 		w.Add(sizeCase(sz))
 		w.Count("block-size-threshold")
 	}
+	// size classes of ELEMENT messages x all eight skip-flag combinations (Go-judged; the Coq-judged
+	// version is in c08): a DenseNodes / Way / Relation message just below / above 128 and 16384 bytes
+	// (thorough: 2 MiB too) among small elements of every kind
+	targets := []int{128, 16384}
+	if a.Tier == "thorough" {
+		targets = append(targets, 2<<20)
+	}
+	for _, kind := range []byte{'d', 'w', 'r'} {
+		for _, target := range targets {
+			for _, above := range []bool{false, true} {
+				d := pbfgen.SizedFile(kind, target, above)
+				data, _ := pbfgen.Encode(d)
+				var cfgs []filterCfg
+				for m := 0; m < 8; m++ {
+					cfgs = append(cfgs, filterCfg{SkipNodes: m&1 != 0, SkipWays: m&2 != 0, SkipRelations: m&4 != 0})
+				}
+				msg, _ := filteredRuns(d, data, cfgs, []int{1, 2}, false)
+				c := &wire.Case{Class: fmt.Sprintf("message-size:%c:%d:above=%v", kind, target, above), OracleFail: msg}
+				c.Desc = map[string]interface{}{"element_message_size": target, "kind": string(kind), "above": above, "file_bytes": len(data),
+					"note": "pbfgen.SizedFile: one message of that kind just below / above the size among small elements of every kind, scanned under all 8 skip-flag combinations x procs 1, 2; judged by the Go-side oracle (observed = kept elements of pbfgen.Elements)"}
+				c.Len(0).Bool(false).Len(0).Len(1).Len(1).Int(1).Int(0).Len(0)
+				w.Add(c)
+				w.Count("message-size")
+			}
+		}
+	}
 	var descs []*pbfgen.FileDesc
 	for i := 0; i < nfiles; i++ {
 		opts := pbfgen.Opts{ZeroPct: 10, UnknownMemberPct: 12}
